@@ -76,8 +76,26 @@ def _extract_unit(root, unit, outdir, overlays):
     return out
 
 
+def _file_bytes(path, overlays):
+    src = overlays.get(path, path) if overlays else path
+    with open(src, "rb") as fh:
+        return fh.read()
+
+
+def _unit_key(root, unit, overlays, hdr_digest, bin_digest):
+    h = hashlib.sha256()
+    h.update(root.encode())
+    h.update(unit[len(root):].encode())
+    h.update(_file_bytes(unit, overlays))
+    h.update(hdr_digest)
+    h.update(bin_digest)
+    return h.hexdigest()[:24]
+
+
 def extract(root="/repo", overlays=None, jobs=16):
-    """Returns path of the merged pickle for the *current* contents of root (+overlays)."""
+    """Returns path of the merged pickle for the *current* contents of root (+overlays).
+    Two cache levels: per translation unit (keyed by the unit's text, every header's text and the extractor binary) and
+    per tree (the merged facts)."""
     root = root.rstrip("/")
     if not os.path.exists(BIN):
         raise AnalysisBroken("extractor binary missing: run `make -C /verif/tools` (MANIFEST.setup_cmd)")
@@ -94,9 +112,35 @@ def extract(root="/repo", overlays=None, jobs=16):
     units, notes = unit_list(root)
     if not units:
         raise AnalysisBroken("no translation units found under " + root)
+    with open(BIN, "rb") as fh:
+        bin_digest = hashlib.sha256(fh.read()).digest()
+    hh = hashlib.sha256()
+    for f in sorted(glob.glob(os.path.join(root, "include", "*")) + glob.glob(os.path.join(root, "external", "*"))):
+        if os.path.isfile(f):
+            hh.update(f[len(root):].encode())
+            hh.update(_file_bytes(f, overlays))
+    hdr_digest = hh.digest()
+    udir = os.path.join(CACHE, "units")
+    os.makedirs(udir, exist_ok=True)
     t0 = time.time()
+
+    def one(u):
+        uk = _unit_key(root, u, overlays, hdr_digest, bin_digest)
+        out = os.path.join(udir, uk + ".json")
+        if os.path.exists(out):
+            try:
+                os.utime(out)
+            except OSError:
+                pass
+            return out
+        tmpd = os.path.join(cdir, "tmp%d" % os.getpid())
+        os.makedirs(tmpd, exist_ok=True)
+        o = _extract_unit(root, u, tmpd, overlays)
+        os.replace(o, out)
+        return out
+
     with ThreadPoolExecutor(max_workers=jobs) as ex:
-        outs = list(ex.map(lambda u: _extract_unit(root, u, cdir, overlays), units))
+        outs = list(ex.map(one, units))
     data = _merge(outs, units, notes)
     data["extract_s"] = time.time() - t0
     data["root"] = root
@@ -104,21 +148,36 @@ def extract(root="/repo", overlays=None, jobs=16):
     with open(tmp, "wb") as fh:
         pickle.dump(data, fh, protocol=pickle.HIGHEST_PROTOCOL)
     os.replace(tmp, merged)
-    for o in outs:
-        os.unlink(o)
+    tmpd = os.path.join(cdir, "tmp%d" % os.getpid())
+    if os.path.isdir(tmpd):
+        try:
+            os.rmdir(tmpd)
+        except OSError:
+            pass
     _prune_cache(keep=key)
     return merged
 
 
-def _prune_cache(keep, maxn=10):
+def _prune_cache(keep, maxn=10, max_units=120):
     try:
-        ents = [(os.path.getmtime(os.path.join(CACHE, d)), d) for d in os.listdir(CACHE) if d != keep]
+        ents = [(os.path.getmtime(os.path.join(CACHE, d)), d) for d in os.listdir(CACHE) if d not in (keep, "units")]
         ents.sort(reverse=True)
         for _, d in ents[maxn:]:
             p = os.path.join(CACHE, d)
             for f in os.listdir(p):
-                os.unlink(os.path.join(p, f))
-            os.rmdir(p)
+                fp = os.path.join(p, f)
+                if os.path.isdir(fp):
+                    continue
+                os.unlink(fp)
+            try:
+                os.rmdir(p)
+            except OSError:
+                pass
+        udir = os.path.join(CACHE, "units")
+        if os.path.isdir(udir):
+            us = sorted(((os.path.getmtime(os.path.join(udir, f)), f) for f in os.listdir(udir)), reverse=True)
+            for _, f in us[max_units:]:
+                os.unlink(os.path.join(udir, f))
     except OSError:
         pass
 
